@@ -20,6 +20,10 @@ _MV = "__mv_"
 def _compile(text):
     srcp = re.sub(r"\$(\w+)", lambda m: _MV + m.group(1), text)
     tree = ast.parse(srcp)
+    # patterns go through the same canonicalisation as the analysed code (engine/normalize.py)
+    from . import normalize
+    normalize.percent_format(tree)
+    normalize.canon_flow(tree, pattern=True)
     body = tree.body
     if len(body) == 1 and isinstance(body[0], ast.Expr):
         return ("expr", body[0].value)
